@@ -5,6 +5,7 @@ set -e
 cd "$(dirname "$0")"
 export GOFLAGS=-mod=mod GOPROXY=off GOSUMDB=off GOTOOLCHAIN=local
 mkdir -p .work evidence replays
+(cd factx && go build -o ../.work/factx-bin . && ../.work/factx-bin /repo ../lean/Dirk/Gen/Facts.lean)
 (cd lean && lake build)
 cp /repo/go.sum harness/go.sum
 (cd harness && go build -tags verif -o ../.work/dh-warm ./cmd/dh && rm -f ../.work/dh-warm)
